@@ -255,6 +255,8 @@ def explore_pb(eng, args, hosts, depth, max_runs=200000, workers=None, **kw):
             def children(item):
                 prefix, parent = item
                 res = []
+                if parent.steplimit or parent.deadlock or parent.exit is None:
+                    return res      # a run that never ends is reported by the caller as it is; its thousands of choice points are not expanded
                 start = prefix[-1][0] + 1 if prefix else 1
                 for k in range(start, len(parent.choices) + 1):
                     c = 0
